@@ -159,6 +159,8 @@ RECURSIVE SumLen(_)
 SumLen(s) == IF s = <<>> THEN 0 ELSE Head(s).len + 2 + SumLen(Tail(s))
 \* coarse size of the v2 encoding; the lattice stays far away from the limit on either side
 SizeV2(t) == 300 + t.name.len + SumLen(t.groups) + 20 * (Len(t.nets) + Len(t.unsafe))
+\* the size rule itself: the whole standard encoding may not exceed the limit (exact sizes: C03Sizes below)
+SizeOK(n) == n <= MaxCertificateSize
 
 HasDup(s)   == \E i, j \in DOMAIN s : i < j /\ s[i] = s[j]
 HasFam(s, F) == \E i \in DOMAIN s : s[i].fam \in F
@@ -189,7 +191,7 @@ WhyV2(t) ==
       [] ~t.ca /\ HasFam(t.unsafe, {6, 46}) /\ ~HasFam(t.nets, {6})  -> "unsafe:v6-without-v6"
       [] ~t.ca /\ HasFam(t.unsafe, {4}) /\ ~HasFam(t.nets, {4})      -> "unsafe:v4-without-v4"
       [] HasDup(t.unsafe)                                    -> "unsafe:dup"
-      [] SizeV2(t) > MaxCertificateSize                      -> "size"
+      [] ~SizeOK(SizeV2(t))                                  -> "size"
       [] OTHER                                               -> ""
 Why(t)   == IF t.ver = 1 THEN WhyV1(t) ELSE WhyV2(t)
 Shape(t) == Why(t) = ""
@@ -253,9 +255,17 @@ C03Shapes ==
 (***************************************************************************)
 (*                        vectors (one state each)                         *)
 (***************************************************************************)
-Inputs == IF Prop = "C02" THEN C02Cases ELSE C03Shapes
+\* the size rule at its boundary, byte by byte: an otherwise ordinary v2 certificate (one filler group) whose STANDARD
+\* ENCODING is exactly `size` bytes long; the harness tunes the filler until the real encoding has that length
+SizeWindow == IF Thorough THEN (MaxCertificateSize - 6)..(MaxCertificateSize + 40)
+                          ELSE (MaxCertificateSize - 2)..(MaxCertificateSize + 16)
+C03Sizes  == [ver : {2}, curve : Curves, ca : BOOLEAN, size : SizeWindow]
+IsShape(i) == "name" \in DOMAIN i
+
+Inputs == IF Prop = "C02" THEN C02Cases ELSE C03Shapes \cup C03Sizes
 Expected(i) == IF Prop = "C02" THEN [verdict |-> Expect(i)]
-               ELSE [ok |-> Shape(i), why |-> Why(i)]
+               ELSE IF IsShape(i) THEN [ok |-> Shape(i), why |-> Why(i)]
+               ELSE [ok |-> SizeOK(i.size), why |-> IF SizeOK(i.size) THEN "" ELSE "size"]
 
 VARIABLES in, exp
 vars == <<in, exp>>
@@ -274,15 +284,17 @@ C02SignedIsAll == Prop = "C02" => (in.op = "alter" => exp.verdict = "reject")
 
 \* ---- link invariants, C03
 \* Signed(c) => Decode(Encode_e(c)) = c   for the standard, PEM and handshake encodings
-C03RoundTrip == Prop = "C03" =>
+C03RoundTrip == (Prop = "C03" /\ IsShape(in)) =>
     (SignM(in).ok => \A e \in C03Encs :
         DecodeM(EncodeM(SignM(in).cert, e), e, in.key, in.curve) = [ok |-> TRUE, cert |-> SignM(in).cert])
 \* Decoded(c) => Shape(c): whatever a decoder accepts, from either encoding, the signer accepts, and it is canonical
-C03DecodedShape == Prop = "C03" =>
+C03DecodedShape == (Prop = "C03" /\ IsShape(in)) =>
     \A e \in C03Encs : LET d == DecodeM(EncodeM(in, e), e, in.key, in.curve) IN
         d.ok => (Shape(d.cert) /\ SignM(d.cert).ok /\ SignM(d.cert).cert = d.cert)
+\* the boundary vectors: issued exactly up to the limit, and what is issued is what the decoder reads (its guard is the same rule)
+C03SizeBoundary == (Prop = "C03" /\ ~IsShape(in)) => (exp.ok <=> in.size <= MaxCertificateSize)
 \* the machine satisfies the reference relation
-C03MachineRefines == Prop = "C03" =>
+C03MachineRefines == (Prop = "C03" /\ IsShape(in)) =>
     LET s == SignM(in) IN
       Rel3([sign |-> s.ok, rt |-> s.ok, dec |-> DecodeM(in, "std", in.key, in.curve).ok])
 =============================================================================
